@@ -217,6 +217,17 @@ def _run(ctx, d, BaseHeader, Header, MPI, SubHeader, String2Key, PubKeyV4, Creat
         ctx.expect_eq('s2k-count', 'coded count differs from model', {'op': 'count', 'c': c}, s.count, unhn(r[0]))
         if s.count != (16 + (c & 15)) << ((c >> 4) + 6) or unhn(r[1]) != s.count:
             ctx.fail('s2k-count', 'coded count differs from RFC 4880 3.7.1.3', {'op': 'count', 'c': c, 'impl': s.count})
+    # the same object given one coded count after another (a re-protected key keeps its specifier object): each read follows the last write
+    s = String2Key()
+    seq = [0x60, 0xff, 0x00, 0xff, 0x10, 0x60] + [ctx.rng.randrange(256) for _ in range(ctx.n(60, 600))]
+    for i, c in enumerate(seq):
+        s.count = c
+        got = outcome(lambda: (s.count, s.count))
+        ctx.case('s2k-count', ('same-object', i, c))
+        want = (16 + (c & 15)) << ((c >> 4) + 6)
+        if got != ('ok', (want, want)):
+            ctx.fail('s2k-count', 'coded count read back from an object that held another count before is not the RFC 4880 3.7.1.3 value of the last one set',
+                     {'op': 'count-seq', 'seq': seq[:i + 1], 'impl': repr(got)}); break
     ctx.exhaustive.append('all 256 coded S2K counts')
 
     # ---- 8. four-octet times ----
@@ -314,6 +325,12 @@ def replay(ctx, case):
         v = int(case['v'], 16)
         buf = bytearray(MPI(v).to_mpibytes() + tr)
         return int(MPI(buf)) != v or bytes(buf) != tr
+    if op == 'count-seq':
+        from pgpy.packet.fields import String2Key
+        s2 = String2Key(); last = None
+        for c in case['seq']:
+            s2.count = c; last = (c, s2.count)
+        return last[1] != (16 + (last[0] & 15)) << ((last[0] >> 4) + 6)
     if op == 'time':
         import calendar
         from pgpy.packet.subpackets.signature import CreationTime
